@@ -280,3 +280,92 @@ func c06scopes(c *core.Check) {
 	}
 	c.Min("elem-type-after-deref", 4)
 }
+
+// c06redirect: inside a struct literal a field that the struct stores as a pointer (NeedRedirect) needs an addressable
+// value. Constants (base types and enums) are made addressable with a temporary; values of struct-likes (a literal or a
+// reference to a struct constant) are pointers already. Rule: in onStructLike every place that prefixes the rendered value
+// with '&' is guarded by the same base-type predicate NeedRedirect itself uses (so the two cannot disagree about enums), and
+// nothing prefixes '&' unconditionally.
+func c06redirect(c *core.Check) {
+	pk := c.Prog.Pkg(golangRel)
+	info := pk.TypesInfo
+	fd := c.Prog.FuncDecl(golangRel, "Resolver.onStructLike")
+	nr := c.Prog.FuncDecl(golangRel, "NeedRedirect")
+	key := golangRel + ".(Resolver).onStructLike/address-of"
+	if fd == nil || nr == nil {
+		c.Unknown("anchor", key, "", "onStructLike or NeedRedirect missing")
+		return
+	}
+	// the predicate NeedRedirect applies to non-struct fields
+	var pred *types.Func
+	for _, call := range rules.Calls(nr.Body, false) {
+		if fn := rules.Callee(info, call); fn != nil && fn.Pkg() == pk.Types && strings.Contains(fn.Name(), "BaseType") {
+			pred = fn
+		}
+	}
+	if pred == nil {
+		c.Unknown("redirect-agrees", key, c.Prog.Rel(nr.Pos()), "NeedRedirect no longer classifies fields with a package predicate")
+		return
+	}
+	// address-of constructions applied to a rendered value
+	type site struct {
+		n      ast.Node
+		guards []ast.Expr
+	}
+	var sites []site
+	var stack []ast.Node
+	ast.Inspect(fd.Body, func(n ast.Node) bool {
+		if n == nil {
+			stack = stack[:len(stack)-1]
+			return true
+		}
+		stack = append(stack, n)
+		amp := false
+		switch x := n.(type) {
+		case *ast.BinaryExpr:
+			if x.Op == token.ADD {
+				if s, ok := rules.ConstString(info, x.X); ok && strings.HasPrefix(s, "&") {
+					if _, isLit := ast.Unparen(x.Y).(*ast.BasicLit); !isLit && !strings.Contains(rules.ExprString(x.Y), "goType") {
+						amp = true
+					}
+				}
+			}
+		case *ast.CallExpr:
+			if fn := rules.Callee(info, x); fn != nil && fn.Pkg() != nil && fn.Pkg().Path() == "fmt" && fn.Name() == "Sprintf" && len(x.Args) >= 2 {
+				if s, ok := rules.ConstString(info, x.Args[0]); ok && (strings.HasPrefix(s, "&(") || strings.HasPrefix(s, "(&")) {
+					amp = true
+				}
+			}
+		}
+		if amp {
+			var gs []ast.Expr
+			for _, p := range stack {
+				if is, ok := p.(*ast.IfStmt); ok && is.Body.Pos() <= n.Pos() && n.End() <= is.Body.End() {
+					gs = append(gs, is.Cond)
+				}
+			}
+			sites = append(sites, site{n, gs})
+		}
+		return true
+	})
+	if len(sites) == 0 {
+		c.Unknown("redirect-agrees", key, c.Prog.Rel(fd.Pos()), "no address-of construction found in onStructLike")
+		return
+	}
+	for i, s := range sites {
+		guarded := false
+		for _, g := range s.guards {
+			ast.Inspect(g, func(n ast.Node) bool {
+				if call, ok := n.(*ast.CallExpr); ok {
+					if fn := rules.Callee(info, call); fn != nil && types.Object(fn) == types.Object(pred) {
+						guarded = true
+					}
+				}
+				return true
+			})
+		}
+		c.Decide(guarded, "redirect-agrees", fmt.Sprintf("%s#%d", key, i+1), c.Prog.Rel(s.n.Pos()),
+			"'&' is only applied under "+pred.Name()+", the predicate NeedRedirect uses",
+			"a value is prefixed with '&' without the test "+pred.Name()+"(f.Type) that NeedRedirect applies: an optional enum field renders as &Color_X (address of a constant) or a reference to a struct constant as &NAME (pointer to pointer), and the generated package does not compile")
+	}
+}
